@@ -578,7 +578,8 @@ func (g *opGen) value(t *ast.Type, depth int, allowVar bool) (string, any) {
 			}
 			s := pick(g.r, stringPool)
 			if g.p.HostileStrings && g.r.Intn(2) == 0 {
-				s = pick(g.r, []string{`q"uote`, `back\slash`, "unié世", "tab\there", "nl\nx", "\u0001ctl", "#hash", "a:b", ""})
+				// ... and texts a block string would not give back unchanged (outer blank lines, common indentation)
+				s = pick(g.r, []string{`q"uote`, `back\slash`, "unié世", "tab\there", "nl\nx", "\u0001ctl", "#hash", "a:b", "", "buy milk\nbuy eggs\n", "  retries: 3\n  timeout: 10", "\n\nlate start\n", "tri\"\"\"ple\nquote"})
 				g.tag("hostile-string-argument")
 				// GraphQL string literal: JSON escaping is a valid GraphQL escape set
 				b, _ := json.Marshal(s)
